@@ -545,6 +545,11 @@ class TransferManager(BaseManager):
         starts them up in case there are free slots available
         """
         downloads, uploads = self._get_queued_transfers()
+        # Leave the transfers alone for which a state transition (abort, pause,
+        # ...) is in progress: a task created now would escape the cancellation
+        # done by that transition. A new cycle is requested when it completes
+        downloads = [download for download in downloads if not download._state_lock.locked()]
+        uploads = [upload for upload in uploads if not upload._state_lock.locked()]
         free_upload_slots = self.get_free_upload_slots()
 
         # Downloads will just get remotely queued. Skip the transfers for which
